@@ -56,3 +56,18 @@ func joinSp(ts []string) string {
 	}
 	return out
 }
+
+// safetyKindWanted: "safety k1 k2 ..." in the root contract restricts the implicit no-panic obligations to those kinds
+// (index, slice, nil, assert, close, send, div, nilfunc, nilmap ...); the other checks are still assumed to pass.
+func (f *Frame) safetyKindWanted(kind string) bool {
+	r := f.root()
+	if r.contract == nil || len(r.contract.SafetyKinds) == 0 {
+		return true
+	}
+	for _, k := range r.contract.SafetyKinds {
+		if k == kind {
+			return true
+		}
+	}
+	return false
+}
